@@ -69,7 +69,37 @@ def eval_closure(prog: Program) -> Set[FuncInfo]:
                             m = prog.lookup(t, d)
                             if m is not None:
                                 extra.add(m)
+    # protocol methods are called by syntax (`for v in d`, `d[k]`, `k in d`, `if d`, `a == b`), also through a local or a conditional
+    # expression, which the call graph does not follow. The containers and value carriers evaluation works with are known by their
+    # type: every repo class that annotates a field of a class in the closure, or a parameter / result of a function in it, contributes
+    # its protocol methods.
+    protocol = ("__iter__", "__getitem__", "__setitem__", "__contains__", "__bool__", "__len__", "__eq__", "__hash__")
+    carriers = set()
+    for f in list(fs):
+        anns = [a.annotation for a in f.node.args.posonlyargs + f.node.args.args + f.node.args.kwonlyargs if a.annotation is not None]
+        if f.node.returns is not None:
+            anns.append(f.node.returns)
+        if f.cls is not None:
+            anns += [fi.annotation for fi in f.cls.attrs.values() if fi.annotation is not None]
+        for a in anns:
+            for y in ast.walk(a if not (isinstance(a, ast.Constant) and isinstance(a.value, str)) else _parse_annotation(a.value)):
+                if isinstance(y, (ast.Name, ast.Attribute)):
+                    t = f.module.resolve(y)
+                    if t in prog.classes and ".entity_query_language." in t and not prog.is_subclass(t, se.qual):
+                        carriers.add(t)
+    for t in carriers:
+        for d in protocol:
+            m = prog.lookup(t, d)
+            if m is not None and ".entity_query_language." in m.qual:
+                extra.add(m)
     return fs | extra
+
+
+def _parse_annotation(text: str) -> ast.AST:
+    try:
+        return ast.parse(text, mode="eval").body
+    except SyntaxError:
+        return ast.Constant(value=None)
 
 
 _reach_cache: Dict[Tuple[int, str], Set[str]] = {}
